@@ -232,6 +232,7 @@ fn e2e(out: &mut Out, rng: &mut Rng, args: &hcommon::Args) {
     models.extend(family_subgraphs(rng, if th { 100 } else { 20 }));
     models.extend(family_graphs(rng, th, if th { 600 } else { 120 }));
     models.extend(family_external(rng, if th { 60 } else { 15 }));
+    models.extend(family_conv_no_kernel_shape(rng, if th { 12 } else { 3 }, &mut tags));
     // one model in seven is written in the V1 container (FlatBuffers only, tensor data inline)
     for m in models.iter_mut() {
         if rng.chance(1, 7) {
